@@ -9,7 +9,7 @@ enum MK { MK_ANY, MK_VAL, MK_EQ, MK_NE, MK_LT, MK_LE, MK_GT, MK_GE, MK_NOTEQ, MK
           MK_RINC2, MK_RINC11, MK_RIS, MK_RSTART, MK_RENDS, MK_RPERM, MK_RALL, MK_RNONE, MK_RANY };
 enum WK { WK_LE, WK_GE, WK_NE, WK_EQ, WK_LT12, WK_NESNAP, WK_LTMAC };
 enum BF { BF_DEFAULT, BF_T2, BF_T13, BF_T02, BF_AL1, BF_AL2, BF_AM2, BF_RT1, BF_RT2, BF_ALLOW, BF_FORBID, BF_T0,
-          BF_T11, BF_AL0, BF_T3, BF_T24 };
+          BF_T11, BF_AL0, BF_T3, BF_T24, BF_RTAL, BF_RTAM };
 enum RK { RK_NONE, RK_VAL, RK_LRVAL, RK_THROW_STD, RK_THROW_INT, RK_REF_PARAM, RK_REF_CELL, RK_STR, RK_LRSTR, RK_CREF_PARAM, RK_CREF_CELL, RK_CREF_CAPT,
           RK_STR_PARAM, RK_LRSTR_VAR, RK_PAIR, RK_LRPAIR_VAR };
 
@@ -46,7 +46,7 @@ struct ShapeDesc {
   int tu;
   const char* text;
   bool forbidding_static() const { return bf == BF_FORBID || bf == BF_T0; }
-  bool runtime_bounds() const { return bf == BF_RT1 || bf == BF_RT2; }
+  bool runtime_bounds() const { return bf == BF_RT1 || bf == BF_RT2 || bf == BF_RTAL || bf == BF_RTAM; }
 };
 
 extern const ShapeDesc shape_table[];
